@@ -299,7 +299,8 @@ def gen_case(rng, focus):
         d = it.get("d") if it["k"] == "raw" else None
         if d and len(d) >= 4 and (d[1] | d[2] << 8) in arrays and d[3] not in arrays[d[1] | d[2] << 8]:
             d[3] = 0
-    return {"objs": objs, "script": script, "ncb": rng.choice([0, 1, 2]), "seed": rng.randrange(1 << 30)}
+    return {"objs": objs, "script": script, "ncb": rng.choice([0, 1, 2]), "seed": rng.randrange(1 << 30),
+            "nrcb": 1 + rng.randrange(1 << 30) % 3}
 
 
 def length_sweep_cases(rng, maxlen=64):
